@@ -8,7 +8,8 @@
 EXTENDS Handshake, Json
 
 Flags == <<"ReplyOffsetsMoved", "MethodSlice11", "FlagBitOther", "SidLittleEndian",
-           "WindowInclusive", "NoTimestampCheck", "IgnoreDecryptError", "SkipMethodCheck", "SkipUidCheck", "AdminNoSid">>
+           "WindowInclusive", "NoTimestampCheck", "IgnoreDecryptError", "SkipMethodCheck", "SkipUidCheck", "AdminNoSid",
+           "LowOrderAccepted", "SkipRecheckSessionless">>
 InvNames == <<"Agreement", "KeyAgreement", "Soundness", "AdminGate">>
 InvVals  == <<Agreement, KeyAgreement, Soundness, AdminGate>>
 
